@@ -1732,6 +1732,7 @@ func (l *Loader) prepareEntityFetch(fetchItem *FetchItem, fetch *EntityFetch, it
 		selectionHash := responseCacheSelectionHash(
 			rendered[:responseCacheHeaderEnd],
 			rendered[responseCacheFooterStart:],
+			undefinedVariables,
 		)
 		responseCacheItemHash := xxhash.Sum64(renderedItem)
 		prepared.responseCacheKeys = []string{caching.Key(responseCacheItemHash, selectionHash)}
@@ -1926,6 +1927,7 @@ WithNextItem:
 		selectionHash := responseCacheSelectionHash(
 			rendered[:responseCacheHeaderEnd],
 			rendered[responseCacheFooterStart:],
+			undefinedVariables,
 		)
 		prepared.responseCacheKeys = make([]string, len(responseCacheItemHashes))
 		for i, itemHash := range responseCacheItemHashes {
